@@ -13,6 +13,9 @@ Schedules (all steered by events, never by sleeps or deadlines):
   B  reader starts first and is paused inside one of its own callbacks (mapper / predicate);
      a writer then tries to commit; it continues when the writer is observed blocked or done.
   C  the owner thread nests `with tree:` and runs every snapshot operation inside (re-entrancy).
+  D  a (nested) critical section is left through an exception (user Exception, BaseException, refused
+     library call); once that thread has ended the event log must show the lock released as often as
+     acquired, and readers then run every snapshot operation without finding the lock taken.
   S  stress: several writers and readers, tiny switch interval, seeded yield injection from
      sys.monitoring LINE events inside nutree frames.
 Oracle: (i) writer bodies never overlap; (ii) schedule A: the reader acquires the tree lock only
@@ -603,6 +606,94 @@ def schedule_C(case, res):
         res.violation(case, "; ".join(dict.fromkeys(bad))[:2500])
 
 
+class _Boom(Exception):
+    pass
+
+
+class _BaseBoom(BaseException):
+    pass
+
+
+def schedule_D(case, res):
+    """A critical section is left through an exception (raised by the user's code or by a refused library call inside it).
+    Decided on the event log once the writer thread has ended: every acquisition is matched by a release, i.e. the lock
+    is free; only then a reader runs each snapshot operation, which must not find the lock taken."""
+    log = Log()
+    t = build_tree(0)
+    t._lock = LockProxy(t._lock, log)
+    tmpdir = tempfile.mkdtemp(prefix="vmon-c18-")
+    bad = []
+    seen = []
+
+    def writer():
+        def inner(d):
+            with t:
+                if d > 1:
+                    return inner(d - 1)
+                steps = writer_steps(t, case["style"], 0)
+                for fn in steps[: case["phase"]]:
+                    fn()
+                if case["exc"] == "user":
+                    raise _Boom("user code fails inside the critical section")
+                if case["exc"] == "base":
+                    raise _BaseBoom("non-Exception raised inside the critical section")
+                t.add("dup", data_id="dup", **_kw(0))
+                t.add("dup", data_id="dup", **_kw(0))  # refused by the library: equal sibling
+
+        try:
+            inner(case["nest"])
+            seen.append("no exception")
+        except BaseException as e:  # noqa: BLE001
+            seen.append(type(e).__name__)
+
+    th = threading.Thread(target=writer, daemon=True)
+    th.start()
+    th.join(WATCHDOG * 2)
+    if th.is_alive():
+        res.inconc("schedule D: writer thread did not end")
+        shutil.rmtree(tmpdir, ignore_errors=True)
+        return
+    res.count("cell:D")
+    wid = th.ident
+    acq = sum(1 for e in log.events if e[1] == "acquired" and e[2] == wid)
+    rel = sum(1 for e in log.events if e[1] == "released" and e[2] == wid)
+    res.count("exception_exits", 1)
+    if seen == ["no exception"]:
+        bad.append("the exception raised inside `with tree:` did not reach the caller")
+    if acq != case["nest"]:
+        res.inconc(f"schedule D: {acq} acquisitions observed, {case['nest']} expected")
+    elif rel != acq:
+        bad.append(f"after `with tree:` (nesting {case['nest']}) was left through {seen} the lock was acquired {acq}x but released {rel}x: "
+                   "it stays held by a thread that has ended, every later snapshot operation would block for ever")
+    else:
+        # state after the aborted section is whatever the writer did; restore a committed state under the lock, then read
+        def reader():
+            try:
+                with t:
+                    t.clear()
+                    fill(t, 2)
+                for op in OPS:
+                    r = run_op(op, t, tmpdir)
+                    msg = check_snapshot(labels_of(op, r), {2})
+                    res.count("snapshots_checked")
+                    if msg:
+                        bad.append(f"{op} after an aborted critical section: {msg}")
+            except Exception:
+                bad.append("reader after an aborted critical section raised: " + short_tb(5))
+
+        n0 = len(log.events)
+        rt = threading.Thread(target=reader, daemon=True)
+        rt.start()
+        rt.join(WATCHDOG * 2)
+        if rt.is_alive():
+            res.inconc("schedule D: reader did not end")
+        elif any(e[1] == "blocked" for e in log.events[n0:]):
+            bad.append("a reader found the lock taken although no thread is inside a critical section")
+    shutil.rmtree(tmpdir, ignore_errors=True)
+    if bad:
+        res.violation(case, "; ".join(dict.fromkeys(bad))[:2500])
+
+
 # ------------------------------------------------------------------------------------
 # stress
 # ------------------------------------------------------------------------------------
@@ -736,6 +827,9 @@ def _run_case(case, res):
     if k == "C":
         res.case(case, nontrivial=True)
         return schedule_C(case, res)
+    if k == "D":
+        res.case(case, nontrivial=True)
+        return schedule_D(case, res)
     return stress(case, res)
 
 
@@ -763,10 +857,15 @@ def all_points(tier):
                 pts.append({"kind": "B", "op": op, "style": style, "k": k})
     for nest in (1, 2, 3):
         pts.append({"kind": "C", "nest": nest})
+    for nest in (1, 2, 3):
+        for exc in ("user", "base", "library"):
+            for style in STYLES:
+                for phase in ((0, 2) if tier == "quick" else (0, 1, 2, 3)):
+                    pts.append({"kind": "D", "nest": nest, "exc": exc, "style": style, "phase": phase})
     # the same schedule points on a TypedTree whose kinds change from version to version (rebuild/mixed styles)
     typed_pts = []
     for pt in pts:
-        if pt["kind"] == "C" or (pt.get("style") in ("rebuild", "mixed") and (tier != "quick" or pt.get("phase", 1) in (1, 2) or pt["kind"] == "B")):
+        if pt["kind"] in ("C", "D") or (pt.get("style") in ("rebuild", "mixed") and (tier != "quick" or pt.get("phase", 1) in (1, 2) or pt["kind"] == "B")):
             typed_pts.append({**pt, "typed": True})
     return pts + typed_pts
 
